@@ -211,3 +211,33 @@ class ExpansionView:
             object.__setattr__(self, k, v)
         else:
             setattr(self._c, k, v)
+
+
+class Renamed:
+    """Runs a rule function of another property under this property's own rule id (the clause is shared; each property
+    that states it must report it itself)."""
+
+    def __init__(self, ctx, rule):
+        object.__setattr__(self, "_c", ctx)
+        object.__setattr__(self, "_rule", rule)
+
+    def _r(self, rule):
+        return self._rule + ("/ANCHOR" if rule.endswith("/ANCHOR") else "")
+
+    def check(self, cond, rule, key, msg, where=None, detail=None):
+        return self._c.check(cond, self._r(rule), key, msg, where, detail)
+
+    def fail(self, rule, key, msg, where=None):
+        self._c.fail(self._r(rule), key, msg, where)
+
+    def ok(self, rule, instance, detail=None):
+        self._c.ok(self._r(rule), instance, detail)
+
+    def anchor(self, rule, what, found, floor=1, where=None):
+        return self._c.anchor(self._rule, what, found, floor, where)
+
+    def __getattr__(self, k):
+        return getattr(self._c, k)
+
+    def __setattr__(self, k, v):
+        setattr(self._c, k, v)
